@@ -45,7 +45,9 @@ def generate(master, index, tier):
         "rawbuf": rng.choice((1, 2, 8, 64, 8192)),
         "items": items,
         "driver": rng.choice(("iterate", "iterate", "read")),
-        "opts": {"quitonerror": rng.choice((0, 1, 1, 2)), "parsed": rng.random() < 0.8, "labelmsm": rng.choice((1, 2)), "handler": rng.choice((False, False, "method", "function", "collector", "falsy"))},
+        # 1 run in 10: the application hands the connection from one reader object to a new one
+        "handover": rng.choice((0, 1, 2, 5)) if index % 10 == 4 else None,
+        "opts": {"quitonerror": rng.choice((0, 1, 1, 2)), "parsed": rng.random() < 0.8, "labelmsm": rng.choice((1, 2)), "handler": rng.choice((False, False) + W.HANDLER_KINDS)},
         "sched": {"seed": rng.getrandbits(48), "seg": rng.choice(("full", "byte", "small", "random", "mixed"))},
     }
 
@@ -67,8 +69,13 @@ def run_reader(scn, data, validate=1, kind=None, opts=None):
     st = W.Stream(kind, data, decider, budget, rawbuf=scn.get("rawbuf", 64))
     kw, calls = W.make_handler(o.get("handler"))
     try:
-        rd = RTCMReader(st.obj, validate=validate, quitonerror=o["quitonerror"], labelmsm=o.get("labelmsm", 1), parsed=o.get("parsed", True), bufsize=scn.get("bufsize", 4096), **kw)
-        events = W.drive(rd, st, scn.get("driver", "iterate"), 0)
+        def make(ds):
+            return RTCMReader(ds, validate=validate, quitonerror=o["quitonerror"], labelmsm=o.get("labelmsm", 1), parsed=o.get("parsed", True), bufsize=scn.get("bufsize", 4096), **kw)
+
+        rd = make(st.obj)
+        ho = (scn["handover"], make) if scn.get("handover") is not None else None
+        events = W.drive(rd, st, scn.get("driver", "iterate"), 0, handover=ho)
+        del rd
     except SimBudgetExceeded as e:
         return None, st, calls, str(e)
     return events, st, calls, None
@@ -178,7 +185,7 @@ def execute(scn):
     taken = st.link.taken if st.link else []
     explicit = {k: v for k, v in scn.items() if k != "sched"}
     explicit["decisions"] = taken
-    counters = {"kind:" + scn["kind"]: 1, "frames_delivered": len(delivered), "intra_frame_boundaries": intra, "transport_calls": st.calls()}
+    counters = {"kind:" + scn["kind"]: 1, "reader_handover_runs": 1 if scn.get("handover") is not None else 0, "frames_delivered": len(delivered), "intra_frame_boundaries": intra, "transport_calls": st.calls()}
     for it in items:
         counters["item:" + it[0]] = counters.get("item:" + it[0], 0) + 1
         if it[0] == "frame":
@@ -195,7 +202,7 @@ def execute(scn):
         "explicit": explicit,
         "stats": {
             "nontrivial": len(delivered) > 0 and (foreign > 0 or intra > 0),
-            "scn_d64": d64((items, scn["kind"], scn["bufsize"], scn.get("rawbuf"), taken, sorted(scn["opts"].items()), scn.get("driver"))),
+            "scn_d64": d64((items, scn["kind"], scn["bufsize"], scn.get("rawbuf"), taken, sorted(scn["opts"].items(), key=str), scn.get("driver"), scn.get("handover"))),
             "counters": counters,
             "sets": {"identities_delivered": idents},
             "sim_seconds": 0.0,
@@ -216,7 +223,7 @@ def simplify(scn):
             cand = dict(scn)
             cand["items"] = items[:i] + [["ubx", wire.ubx_frame(1, 2, b"").hex(), "min"]] + items[i + 1 :]
             yield cand
-    for key, val in (("kind", "bytesio"), ("bufsize", 4096), ("driver", "iterate")):
+    for key, val in (("kind", "bytesio"), ("bufsize", 4096), ("driver", "iterate"), ("handover", None)):
         if scn.get(key) != val:
             cand = dict(scn)
             cand[key] = val
